@@ -189,29 +189,24 @@ void ir_memset(uint64_t d, uint8_t v, uint64_t n)
     IR_CHECK(0, "memset outside every writable memory region");
 }
 
+/* loop-free bit counting (no unwinding bound needed) */
+uint64_t ir_ctpop(uint64_t x)
+{
+    x = x - ((x >> 1) & UINT64_C(0x5555555555555555));
+    x = (x & UINT64_C(0x3333333333333333)) + ((x >> 2) & UINT64_C(0x3333333333333333));
+    x = (x + (x >> 4)) & UINT64_C(0x0f0f0f0f0f0f0f0f);
+    return (x * UINT64_C(0x0101010101010101)) >> 56;
+}
 uint64_t ir_ctlz(uint64_t x, int bits)
 {
-    uint64_t n = 0;
-    for (int i = bits - 1; i >= 0; --i) {
-        if ((x >> i) & 1) break;
-        ++n;
-    }
-    return n;
+    /* smear the highest set bit downwards, count the zeros above it */
+    x |= x >> 1; x |= x >> 2; x |= x >> 4; x |= x >> 8; x |= x >> 16; x |= x >> 32;
+    return (uint64_t)bits - ir_ctpop(x);
 }
 uint64_t ir_cttz(uint64_t x, int bits)
 {
-    uint64_t n = 0;
-    for (int i = 0; i < bits; ++i) {
-        if ((x >> i) & 1) break;
-        ++n;
-    }
-    return n;
-}
-uint64_t ir_ctpop(uint64_t x)
-{
-    uint64_t n = 0;
-    for (int i = 0; i < 64; ++i) n += (x >> i) & 1;
-    return n;
+    if (x == 0) return (uint64_t)bits;
+    return ir_ctpop((x & (~x + 1)) - 1);
 }
 uint64_t ir_bswap(uint64_t x, int bits)
 {
@@ -350,3 +345,17 @@ void ir_thread_exit(uint64_t tid)
     tls_dtor_n[tid] = 0;
     ir_tid = keep;
 }
+
+#ifdef IR_HOOK_MMAP
+/* POSIX virtual memory calls as harness hooks; documented contracts: mmap returns MAP_FAILED (-1) on failure,
+ * munmap / mprotect return 0 or -1 (munmap of length 0 fails), madvise is advisory */
+extern uint64_t verif_mmap(uint64_t len);
+extern uint32_t verif_munmap(uint64_t p, uint64_t len);
+extern uint32_t verif_mprotect(uint64_t p, uint64_t len, uint32_t prot);
+extern uint64_t verif_page_size(void);
+uint64_t X_mmap(uint64_t addr, uint64_t len, uint32_t prot, uint32_t flags, uint32_t fd, uint64_t off) { (void)addr; (void)prot; (void)flags; (void)fd; (void)off; return verif_mmap(len); }
+uint32_t X_munmap(uint64_t p, uint64_t len) { return verif_munmap(p, len); }
+uint32_t X_mprotect(uint64_t p, uint64_t len, uint32_t prot) { return verif_mprotect(p, len, prot); }
+uint32_t X_madvise(uint64_t p, uint64_t len, uint32_t adv) { (void)p; (void)len; (void)adv; return 0; }
+uint64_t X_sysconf(uint32_t name) { (void)name; return verif_page_size(); }
+#endif
